@@ -14,4 +14,5 @@ def run(ctx):
     return run_parts(ctx, [
         Part('apply_matcher', 'corr_matcher', 'run_matcher', [s, 150 if q else 3000]),
         Part('njobs', 'corr_meta', 'run_njobs_matcher', [s, 40 if q else 600]),
+        Part('split_grid', 'corr_split', 'run', [s, 100 if q else 1000]),
     ], RULE)
